@@ -86,12 +86,12 @@ type (
 		GetLocalAckChan(shardID history.ClusterShardID) (chan RoutedAck, bool)
 		// RemoveLocalAckChan removes the ack channel for a specific shard ID only if it matches the provided channel
 		RemoveLocalAckChan(shardID history.ClusterShardID, expectedChan chan RoutedAck)
-		// SetLocalReceiverCancelFunc registers a cancel function for a local receiver for a specific shard ID
-		SetLocalReceiverCancelFunc(shardID history.ClusterShardID, cancelFunc context.CancelFunc)
+		// SetLocalReceiverCancelFunc registers the cancel function of the local receiver `owner` for a specific shard ID
+		SetLocalReceiverCancelFunc(shardID history.ClusterShardID, owner *proxyStreamReceiver, cancelFunc context.CancelFunc)
 		// GetLocalReceiverCancelFunc retrieves the cancel function for a local receiver for a specific shard ID
 		GetLocalReceiverCancelFunc(shardID history.ClusterShardID) (context.CancelFunc, bool)
-		// RemoveLocalReceiverCancelFunc unconditionally removes the cancel function for a local receiver for a specific shard ID
-		RemoveLocalReceiverCancelFunc(shardID history.ClusterShardID)
+		// RemoveLocalReceiverCancelFunc removes the cancel function for a specific shard ID only if it is still the one registered by `owner`
+		RemoveLocalReceiverCancelFunc(shardID history.ClusterShardID, owner *proxyStreamReceiver)
 
 		// Intra-proxy
 		// GetIntraProxyManager returns the intra-proxy manager if it exists
@@ -104,6 +104,12 @@ type (
 		GetShardInfos() []ShardDebugInfo
 		// GetChannelInfo returns debug information about active channels
 		GetChannelInfo() ChannelDebugInfo
+	}
+
+	// localReceiverCancel is the cancel function of a local receiver together with the receiver that registered it
+	localReceiverCancel struct {
+		owner  *proxyStreamReceiver
+		cancel context.CancelFunc
 	}
 
 	shardManagerImpl struct {
@@ -138,7 +144,7 @@ type (
 		localAckChannels   map[history.ClusterShardID]chan RoutedAck
 		localAckChannelsMu sync.RWMutex
 		// localReceiverCancelFuncs maps shard IDs to context cancel functions for local receiver termination
-		localReceiverCancelFuncs   map[history.ClusterShardID]context.CancelFunc
+		localReceiverCancelFuncs   map[history.ClusterShardID]localReceiverCancel
 		localReceiverCancelFuncsMu sync.RWMutex
 		// remoteNodeStates stores remote node shard states (from MergeRemoteState)
 		// keyed by node name, includes the meta (shard state) information
@@ -191,7 +197,7 @@ func NewShardManager(memberlistConfig *config.MemberlistConfig, shardCountConfig
 		activeReceivers:          make(map[history.ClusterShardID]ActiveReceiver),
 		remoteSendChannels:       make(map[history.ClusterShardID]chan RoutedMessage),
 		localAckChannels:         make(map[history.ClusterShardID]chan RoutedAck),
-		localReceiverCancelFuncs: make(map[history.ClusterShardID]context.CancelFunc),
+		localReceiverCancelFuncs: make(map[history.ClusterShardID]localReceiverCancel),
 		remoteNodeStates:         make(map[string]NodeShardState),
 	}
 
@@ -665,7 +671,7 @@ func (sm *shardManagerImpl) TerminatePreviousLocalReceiver(shardID history.Clust
 		prevCancelFunc()
 
 		// Force remove the cancel function and ack channel from tracking
-		sm.RemoveLocalReceiverCancelFunc(shardID)
+		sm.forceRemoveLocalReceiverCancelFunc(shardID)
 		sm.forceRemoveLocalAckChan(shardID)
 	}
 }
@@ -1205,25 +1211,36 @@ func (sm *shardManagerImpl) forceRemoveLocalAckChan(shardID history.ClusterShard
 	delete(sm.localAckChannels, shardID)
 }
 
-// SetLocalReceiverCancelFunc registers a cancel function for a local receiver for a specific shard ID
-func (sm *shardManagerImpl) SetLocalReceiverCancelFunc(shardID history.ClusterShardID, cancelFunc context.CancelFunc) {
+// SetLocalReceiverCancelFunc registers the cancel function of the local receiver `owner` for a specific shard ID
+func (sm *shardManagerImpl) SetLocalReceiverCancelFunc(shardID history.ClusterShardID, owner *proxyStreamReceiver, cancelFunc context.CancelFunc) {
 	sm.logger.Info("Register local receiver cancel function for shard", tag.NewStringTag("shardID", ClusterShardIDtoString(shardID)))
 	sm.localReceiverCancelFuncsMu.Lock()
 	defer sm.localReceiverCancelFuncsMu.Unlock()
-	sm.localReceiverCancelFuncs[shardID] = cancelFunc
+	sm.localReceiverCancelFuncs[shardID] = localReceiverCancel{owner: owner, cancel: cancelFunc}
 }
 
 // GetLocalReceiverCancelFunc retrieves the cancel function for a local receiver for a specific shard ID
 func (sm *shardManagerImpl) GetLocalReceiverCancelFunc(shardID history.ClusterShardID) (context.CancelFunc, bool) {
 	sm.localReceiverCancelFuncsMu.RLock()
 	defer sm.localReceiverCancelFuncsMu.RUnlock()
-	cancelFunc, exists := sm.localReceiverCancelFuncs[shardID]
-	return cancelFunc, exists
+	entry, exists := sm.localReceiverCancelFuncs[shardID]
+	return entry.cancel, exists
 }
 
-// RemoveLocalReceiverCancelFunc unconditionally removes the cancel function for a local receiver for a specific shard ID
-func (sm *shardManagerImpl) RemoveLocalReceiverCancelFunc(shardID history.ClusterShardID) {
-	sm.logger.Info("Remove local receiver cancel function for shard", tag.NewStringTag("shardID", ClusterShardIDtoString(shardID)))
+// RemoveLocalReceiverCancelFunc removes the cancel function for a specific shard ID only if it is still the one
+// registered by `owner`: a receiver that is winding down must not remove the entry of the receiver that replaced it
+func (sm *shardManagerImpl) RemoveLocalReceiverCancelFunc(shardID history.ClusterShardID, owner *proxyStreamReceiver) {
+	sm.localReceiverCancelFuncsMu.Lock()
+	defer sm.localReceiverCancelFuncsMu.Unlock()
+	if current, exists := sm.localReceiverCancelFuncs[shardID]; exists && current.owner == owner {
+		sm.logger.Info("Remove local receiver cancel function for shard", tag.NewStringTag("shardID", ClusterShardIDtoString(shardID)))
+		delete(sm.localReceiverCancelFuncs, shardID)
+	}
+}
+
+// forceRemoveLocalReceiverCancelFunc unconditionally removes the cancel function for a specific shard ID
+func (sm *shardManagerImpl) forceRemoveLocalReceiverCancelFunc(shardID history.ClusterShardID) {
+	sm.logger.Info("Force remove local receiver cancel function for shard", tag.NewStringTag("shardID", ClusterShardIDtoString(shardID)))
 	sm.localReceiverCancelFuncsMu.Lock()
 	defer sm.localReceiverCancelFuncsMu.Unlock()
 	delete(sm.localReceiverCancelFuncs, shardID)
